@@ -1,7 +1,13 @@
 #[cfg(feature = "std")]
 use std::collections::{HashMap, VecDeque};
 #[cfg(feature = "std")]
+#[cfg(not(raptorq_verif_shuttle))]
 use std::sync::{Arc, Mutex, OnceLock};
+#[cfg(all(feature = "std", raptorq_verif_shuttle))]
+use shuttle::sync::{Arc, Mutex};
+#[cfg(all(feature = "std", raptorq_verif_shuttle))]
+#[allow(unused_imports)]
+use std::sync::OnceLock;
 #[cfg(feature = "std")]
 use std::vec::Vec;
 
@@ -203,7 +209,18 @@ struct SourceBlockEncodingPlanCache {
     insertion_order: VecDeque<u16>,
 }
 
+// verification hook H1: under the shuttle flavour the process-wide cache is a shuttle lazy static
+// (fresh per simulated execution) and its Mutex/Arc are shuttle's, so that the simulator's
+// scheduler owns every lock operation of the code below.
+#[cfg(all(feature = "std", raptorq_verif_shuttle))]
+fn source_block_encoding_plan_cache() -> &'static Mutex<SourceBlockEncodingPlanCache> {
+    static CACHE: shuttle::lazy_static::Lazy<Mutex<SourceBlockEncodingPlanCache>> =
+        shuttle::lazy_static::Lazy::new(|| Mutex::new(SourceBlockEncodingPlanCache::default()));
+    CACHE.get()
+}
+
 #[cfg(feature = "std")]
+#[cfg(not(raptorq_verif_shuttle))]
 fn source_block_encoding_plan_cache() -> &'static Mutex<SourceBlockEncodingPlanCache> {
     static CACHE: OnceLock<Mutex<SourceBlockEncodingPlanCache>> = OnceLock::new();
     CACHE.get_or_init(|| Mutex::new(SourceBlockEncodingPlanCache::default()))
